@@ -25,6 +25,8 @@ ASSUMPTIONS = ["meaning of a message = its uncompressed re-encoding with lower-c
                "are names for the type (NS MD MF CNAME MB MG MR PTR / MINFO RP / MX AFSDB RT / PX / SOA / SRV); all other RDATA raw",
                "labels with the ACE prefix or non-ASCII bytes are outside the Coq model (EAce); judged by the oracle only"]
 
+# Independent of the repo's tuple: SHAPES (below) lists every type whose RDATA is defined to contain (compressible) domain names
+# (RFC 1035 3.3, RFC 1183, RFC 2163, RFC 2782; RFC 3597 4 forbids compression for all later types). Everything else is opaque.
 RAW_COMPRESSIBLE = {13, 16, 24, 30, 35}          # in record_data_can_have_compression but no name grammar in the reference decoder
 SHAPES = {}
 for _t in (2, 3, 4, 5, 7, 8, 9, 12): SHAPES[_t] = (0, 1, 0)
@@ -121,7 +123,7 @@ def ref_canon(buf):
 
 # ------------------------------------------------------------------ generator
 def gen(rng, n, tier):
-    out = []
+    out = [{"k": "compr", "t": t} for t in list(range(0, 70)) + [99, 249, 250, 255, 256, 257, 32768, 65280, 65535]]
     for i in range(n):
         r = rng.random()
         tags = []
@@ -192,6 +194,8 @@ def forward(buf: bytes, from_client: bool):
 
 
 def run_impl(case):
+    if case["k"] == "compr":
+        return {"r": bool(C25.domain_names.record_data_can_have_compression(case["t"]))}
     buf = unhx(case["buf"])
     if case["k"] == "ref":
         c = ref_canon(buf)
@@ -209,6 +213,8 @@ def run_impl(case):
 
 
 def coq_case(case, obs):
+    if case["k"] == "compr":
+        return f"Comp {case['t']}%N {cbool(obs['r'])}"
     b = cbytes(unhx(case["buf"]))
     if case["k"] == "ref":
         return f"Ref {b} {copt(obs['canon'], lambda h: cbytes(unhx(h)), 'bytes')}"
@@ -239,6 +245,14 @@ def nonascii_or_ace(buf):
 
 
 def oracle(case, obs):
+    if case["k"] == "compr":
+        t = case["t"]
+        if obs["r"] and t not in SHAPES:
+            if t in RAW_COMPRESSIBLE:
+                return [{"key": "raw-rdata-rewritten", "what": f"type {t} has no domain name in its RDATA but is scanned for compression pointers"}]
+            return [{"key": "opaque-type-scanned-for-pointers",
+                     "what": f"record_data_can_have_compression({t}) is True, but RDATA of type {t} is opaque (no compressible name per the RFCs): it would not be forwarded byte-for-byte"}]
+        return []
     if case["k"] != "fwd" or obs["cin"] is None:
         return []                       # not a well-formed message: nothing to preserve (rejection/garbage is C25's business)
     buf, s = unhx(case["buf"]), obs["sent"]
@@ -305,14 +319,21 @@ def oracle(case, obs):
 
 
 def nontrivial(case, obs):
-    return True if case["k"] == "ref" else ("ok" in obs["sent"] or obs["sent"]["err"] == "EStruct")
+    return True if case["k"] in ("ref", "compr") else ("ok" in obs["sent"] or obs["sent"]["err"] == "EStruct")
 
 
 def classify(case, obs):
+    if case["k"] == "compr":
+        return ["compr", f"compr={obs['r']}"]
     if case["k"] == "ref":
         return ["ref", "ref-ok" if obs["canon"] else "ref-malformed"]
     s = obs["sent"]
-    tags = ["fwd", "from-client" if case["from_client"] else "from-server", "sent" if "ok" in s else "fwd-" + s["err"],
+    try:
+        opaque = [r[2] for r in ref_records(unhx(case["buf"]), raw=True)[2] if r[2] not in SHAPES and r[2] not in RAW_COMPRESSIBLE
+                  and any(b >= 0xC0 for b in r[3])]
+    except Malformed:
+        opaque = []
+    tags = (["opaque-rr-with-ptr-byte"] if opaque else []) + ["fwd", "from-client" if case["from_client"] else "from-server", "sent" if "ok" in s else "fwd-" + s["err"],
             "wellformed" if obs["cin"] else "malformed-input"] + case.get("tags", [])[:2]
     if "ok" in s:
         tags.append("identical-bytes" if s["ok"] == case["buf"] else "bytes-differ")
